@@ -261,7 +261,7 @@ PROPS["C18"] = dict(
     namespace="Cfdp.Loop",
     theorems=["C18_recv_oneway", "C18_recv_silent_without_closure", "C18_complete_means_complete",
               "Cfdp.Send.C18_send_ends_on_eof", "Cfdp.Send.C18_send_waits", "Cfdp.Send.C18_send_reports_outcome",
-              "Cfdp.Send.C18_send_ignores_finished_without_closure"],
+              "Cfdp.Send.C18_send_ignores_finished_without_closure", "Cfdp.Recv.C18_recv_closure_ends_quietly"],
     engines=["recv", "send"],
     design="§6 C18",
     technique="Lean 4 invariant proofs over all event histories of the receiver model, step theorems on the sender model + differential correspondence",
@@ -436,15 +436,17 @@ PROPS["C01"] = dict(
 
 PROPS["C03"] = dict(
     title="Every transaction ends in bounded time, whatever the peer and the link do",
-    module="Cfdp.Props.C03",
+    module="Cfdp.Props.C03s",
     namespace="Cfdp.Loop",
-    theorems=["C03_recv_never_stuck", "Cfdp.Recv.C03_recv_inactivity_limit"],
+    theorems=["C03_recv_never_stuck", "C03_send_never_stuck", "Cfdp.Recv.C03_recv_inactivity_limit"],
     engines=["recv", "send"],
     design="§6 C03",
-    technique="Lean 4 invariant proof over all event histories of the receiver model (a timer is always running) + limit-to-termination step theorems; bounded termination of the real state machines checked by a drain phase on the virtual clock",
-    level_text=("Kernel-checked for the receiver: after every history of loop events a receive transaction that is neither terminated nor suspended has its inactivity timer "
+    technique="Lean 4 invariant proofs over all event histories of the receiver and sender models (a timer is always running or a PDU is queued) + limit-to-termination step theorems; bounded termination of the real state machines checked by a drain phase on the virtual clock",
+    level_text=("Kernel-checked. Receiver: after every history of loop events a receive transaction that is neither terminated nor suspended has its inactivity timer "
                 "running, so the sleep the task loop computes is finite and handle_timeout runs again whatever the peer and the link do, including nothing at all for good "
-                "(C03_recv_never_stuck: invariant Act, ~25 preservation lemmas); when the inactivity limit is reached a cancelled transaction is abandoned = Terminated, any "
+                "(C03_recv_never_stuck: invariant Act, ~25 preservation lemmas); for the sender: after every history a send transaction that is neither terminated nor suspended "
+                "either has a PDU to transmit (metadata / data phase; a queued EOF; the queued ACK of Finished) or its positive-ACK or inactivity timer is running, so its sleep is "
+                "finite too (C03_send_never_stuck in Props/C03s.lean: invariant SA, ~25 preservation lemmas); when the inactivity limit is reached a cancelled transaction is abandoned = Terminated, any "
                 "other one is cancelled (default handler) or abandoned at once (C03_recv_inactivity_limit) - with C10_recv_cancel_ends / C10_send_cancel_ends (the positive-ACK "
                 "limit ends a cancelled transaction) and C17 (limits are reached after max x timeout) this bounds the lifetime under the default handlers. "
                 "Checked on the real code only (not a theorem): the engines end every history with a drain phase - the peer silent for good from a random point of the "
@@ -455,8 +457,7 @@ PROPS["C03"] = dict(
     rule=("recv + send engines as in C04/C07; one history in three is cut at a random point (blackout of both directions from there on), every history is followed by the drain "
           "phase. Oracles never_stuck, bounded. Non-trivial = a PDU was emitted or an indication raised."),
     assumptions=["the runtime wakes the task when the computed sleep is over (tokio timers) and grants the link when asked (bounded channel with a live consumer)"],
-    unproved=["sender: 'a timer is always running while nothing is queued' as an all-history invariant (checked by the drain oracle never_stuck on the real SendTransaction)",
-              "the numeric bound as a theorem (termination measure over NAK queue, counters and phases); checked by the drain oracle bounded"],
+    unproved=["the numeric bound as a theorem (termination measure over NAK queue, counters and phases); checked by the drain oracle bounded"],
 )
 
 PROPS["C15"] = dict(
